@@ -347,7 +347,7 @@ func runWriteOps(w io.WriteCloser, ops string) []string {
 	return out
 }
 
-const maxDrain = 5000
+const maxDrain = 20000
 
 // runReads drives a Reader: listed sizes until the first non-nil error, then
 // Read(drain) until one, then two more calls.
